@@ -54,7 +54,8 @@ EXTRA = {
            "segmentation (R13, shared with C02-R9)."
            " Standard errors from the Jacobian whitened like the fit "
            "(R14), argument binding over the blind-finding call graph "
-           "(R15), negative sources mirror positive ones (R16).",
+           "(R15), negative sources mirror positive ones (R16)."
+           " The great-circle formulae behind the sky sizes are exact and well conditioned at small separations (R17).",
     "C02": " Also: the island loop visits all labels with the exact label "
            "slices, blanks a copy, and passes (row, column) offsets (R8)."
            " The image handed to find_islands has its background "
@@ -65,7 +66,8 @@ EXTRA = {
            "backgrounds (R9)."
            " Out-of-group pixels are marked with NaN, never with a "
            "number a pixel can take (R8)."
-           " find_islands does not write into its arguments (R10).",
+           " find_islands does not write into its arguments (R10)."
+           " The seed test is aggregated over all own pixels (R2).",
     "C03": " Also: sign of every value stored into err_* (R11), the island "
            "number stored is the island's own (R2)."
            " The sexagesimal formatters carry after the integer "
@@ -75,7 +77,8 @@ EXTRA = {
            "flags parameter (R14)."
            " The island cut-out excludes other islands' pixels (R15, "
            "shared with C01-R11)."
-           " No state shared between SourceFinder instances (R16).",
+           " No state shared between SourceFinder instances (R16)."
+           " The priorized fitting box is cut with row bounds from row quantities and column bounds from column quantities (R17); pa_limit / fix_shape are interpreted over sample values (R4).",
     "C04": " Also: each err_* field depends on the stderr of its own "
            "parameter (R8, dependency analysis), covariance-model contract "
            "sites (R9), no narrow dtype in fitting.py (R7)."
@@ -83,7 +86,8 @@ EXTRA = {
            "island's own cut-out (R10)."
            " No loop-carried state in the component loops (R11); axis "
            "roles of the coordinate arrays handed to the derivative "
-           "routines (R9).",
+           "routines (R9)."
+           " Fit, covariance and Fisher matrix select the same (finite) pixels (R12).",
     "C05": " Also: refit lower shape bound <= blind-fit lower bound (R7, "
            "symbolic with counter-example), default regrouping length in "
            "arcmin (R8)."
@@ -99,7 +103,8 @@ EXTRA = {
            "axis discipline of the worker (R7), plane addressing of 3-d / "
            "4-d inputs (R8)."
            " No NaN is replaced by a number inside the estimator (R9)."
-           " Argument binding in BANE (R10), nothing memoised (R11).",
+           " Argument binding in BANE (R10), nothing memoised (R11)."
+           " Every comparison in sigmaclip / sigma_filter is homogeneous in the pixel values, no absolute tolerance (R12).",
     "C07": " Also: row / column axis discipline of the stripe halo and box "
            "(R7)."
            " The pool / barrier rule is decided when only one side is "
@@ -107,7 +112,8 @@ EXTRA = {
            " Pool typestate: join only after close / terminate; names "
            "read before the release are bound on failure paths (R4)."
            " No finite barrier timeout (R3); exported buffer views are "
-           "released before close() (R4).",
+           "released before close() (R4)."
+           " The closing node of each interpolation axis is >= the range stop for every stripe height (R8).",
     "C08": " Also: bypass paths of the set operations only where the "
            "operation is the identity (R3), the cache is never mutated in "
            "place (R9), no narrow integer / float dtype (R10), add_pixels "
@@ -134,7 +140,8 @@ EXTRA = {
            "plane goes through the 2-d routine (R3, R4)."
            " The image is not narrowed to a smaller float type (R9)."
            " Masked table cells become undefined positions (R10), "
-           "nothing memoised in regions / MIMAS (R11).",
+           "nothing memoised in regions / MIMAS (R11)."
+           " The membership look-up is called within numpy.isin's contract (R12).",
     "C11": " Also: the tested pixels are exactly the own pixels (R2), the "
            "flattening sees every stored level (R6)."
            " The region is never re-bound or dropped on a partial test; "
@@ -192,14 +199,16 @@ EXTRA = {
            " The rounded seconds are an integer number of output "
            "quanta, not rescaled afterwards (R4)."
            " The placeholder is returned exactly for non-finite input "
-           "(R9); no snapping in translate (R3).",
+           "(R9); no snapping in translate (R3)."
+           " The quantum of the rounded total is one printed unit (R4).",
     "C18": " Also: exhaustive type dispatch of the sqlite and FITS writers "
            "(R7), value provenance in the reader (R4)."
            " No reordering between catalogue and table rows (R8)."
            " The per-type outputs are independent of each other (R9)."
            " Column types are decided by all rows (R10)."
            " Exact float parsing on read (R11), nothing memoised in "
-           "catalogs (R12).",
+           "catalogs (R12)."
+           " No value-substituting function (nulls) is applied to individual field values (R13).",
     "C19": " Also: no narrow dtype in the grouping pipeline (R8)."
            " Ratio 1 is the identity also for unknown (nan) psf (R7); "
            "the greedy variant joins the matched group exactly once "
